@@ -145,35 +145,35 @@ CAST_TABLE = [
 # R14.9: indexing operations (v[i], v[a..b], s[a..b], map[k]) that are not auto-discharged (index produced by a normaliser, full range):
 # function-key regex, kind, reviewed count, reason. A new indexing site, or one of a new kind (e.g. str instead of [u8]), needs review.
 INDEX_TABLE = [
-    (r"^<ComparisonOperator as core::Builtin>::run$", 'Vec', 7, 'i ranges over 0..len-1 of a Few::Many list (>= 2 operands); the chained form runs only after chained.len() + 2 == args.len()'),
-    (r"^<core::WrappedVec<T> as (core::Stream|std::iter::Iterator)>::(peek|next)$", 'Vec', 1, 'after the `self.1 >= self.0.len()` exhaustion test'),
-    (r"^<streams::(CartesianPower|Combinations|Permutations|Subsequences) as (core::Stream|std::iter::Iterator)>::(next|peek|len)(::\{closure#\d+\})*$", 'Vec', 4,
+    (r"^<ComparisonOperator as core::Builtin>::run$", 'elem', 7, 'i ranges over 0..len-1 of a Few::Many list (>= 2 operands); the chained form runs only after chained.len() + 2 == args.len()'),
+    (r"^<core::WrappedVec<T> as (core::Stream|std::iter::Iterator)>::(peek|next)$", 'elem', 1, 'after the `self.1 >= self.0.len()` exhaustion test'),
+    (r"^<streams::(CartesianPower|Combinations|Permutations|Subsequences) as (core::Stream|std::iter::Iterator)>::(next|peek|len)(::\{closure#\d+\})*$", 'elem', 4,
      'cursor vectors: positions come from ranges over v.len(); entries are indices into the base kept < base.len() by next (wrap to 0 / successor < last); Combinations guards k <= n in next and peek (C11 R11.6)'),
-    (r"^<streams::Permutations as std::iter::Iterator>::next$", 'Vec-range', 1, 'v[inc + 1..] with inc an index found by the preceding scan (inc < v.len())'),
-    (r"^<streams::Cycle as (core::Stream|std::iter::Iterator)>::(peek|next|pythonic_index_isize)$", 'Vec', 1, 'cursor kept < len by next (wraps); the index form reduces modulo len; the base is never empty (R14.7)'),
-    (r"^builtin\(b_spline\)$", 'Vec', 5, 'i < n = len - 1 after the `i >= n` early return (which reads vals[n]); i + 2 only under `i + 2 < len`, i - 1 only under `i > 0`; len == 0 rejected'),
-    (r"^builtin\(hex_decode\)::\{closure#\d\}$", 'BoundsCheck', 2, 'chunks(2) of an input whose length was tested even (C16 R16.1): every chunk has two bytes'),
-    (r"^builtin\(index\)$", 'Vec', 1, 'struct field index stored in the Func::StructField accessor created with the struct definition; instances always hold exactly fields.len() values (call_type)'),
-    (r"^(eval::<impl core::Func>::run|eval::modify_existing_index|eval::modify_every_existing_index)$", 'Vec', 1, 'struct field index from the definition (see builtin(index))'),
-    (r"^core::Env::(modify_peek|try_borrow_peek|try_borrow_set_peek)$", 'Vec', 1, '__internal_peek stack primitive: internal (README: "you are on your own"), same verdict as its subtraction in the arithmetic table'),
-    (r"^core::call_type$", 'Vec', 1, 'fields[args.len()] inside `while args.len() < fields.len()`'),
-    (r"^core::fast_edit_distance$", 'BoundsCheck', 2, 'inside `while ai < a.len() && bi < b.len()`'),
-    (r"^core::freeze$", 'Vec', 1, 'args[0] under `args.len() == 1`'),
+    (r"^<streams::Permutations as std::iter::Iterator>::next$", 'range', 1, 'v[inc + 1..] with inc an index found by the preceding scan (inc < v.len())'),
+    (r"^<streams::Cycle as (core::Stream|std::iter::Iterator)>::(peek|next|pythonic_index_isize)$", 'elem', 1, 'cursor kept < len by next (wraps); the index form reduces modulo len; the base is never empty (R14.7)'),
+    (r"^builtin\(b_spline\)$", 'elem', 5, 'i < n = len - 1 after the `i >= n` early return (which reads vals[n]); i + 2 only under `i + 2 < len`, i - 1 only under `i > 0`; len == 0 rejected'),
+    (r"^builtin\(hex_decode\)::\{closure#\d\}$", 'elem', 2, 'chunks(2) of an input whose length was tested even (C16 R16.1): every chunk has two bytes'),
+    (r"^builtin\(index\)$", 'elem', 1, 'struct field index stored in the Func::StructField accessor created with the struct definition; instances always hold exactly fields.len() values (call_type)'),
+    (r"^(eval::<impl core::Func>::run|eval::modify_existing_index|eval::modify_every_existing_index)$", 'elem', 1, 'struct field index from the definition (see builtin(index))'),
+    (r"^core::Env::(modify_peek|try_borrow_peek|try_borrow_set_peek)$", 'elem', 1, '__internal_peek stack primitive: internal (README: "you are on your own"), same verdict as its subtraction in the arithmetic table'),
+    (r"^core::call_type$", 'elem', 1, 'fields[args.len()] inside `while args.len() < fields.len()`'),
+    (r"^core::fast_edit_distance$", 'elem', 2, 'inside `while ai < a.len() && bi < b.len()`'),
+    (r"^core::freeze$", 'elem', 1, 'args[0] under `args.len() == 1`'),
     (r"^decimal::parse_(rational|unsigned_decimal)_exactly$", 'str-range', 4, 'split positions come from str::find of an ASCII character (e, E, ., /): always char boundaries, pos + 1 <= len'),
     (r"^ein::compile_einsum::\{closure#\d\}(::\{closure#0\})?$", 'HashMap', 1, 'after `lhs_set != rhs_set` was rejected every rhs identifier is a key of id_to_idx'),
-    (r"^ein::compile_einsum::\{closure#\d\}$", 'Vec', 1, 'v[n - 1] for a group of n >= 1 identifiers: parse_elements rejects empty groups ("empty group")'),
-    (r"^ein::iterate$", 'Vec', 5, 'inds received nn new entries just above; positions inn - 1 - p with p < nn'),
-    (r"^ein::parse_einsum$", 'Vec-range', 2, 'arrow_idx is the position() of the arrow token (exactly one arrow was counted)'),
-    (r"^ein::parse_elements$", 'BoundsCheck', 1, 'inside `while i < tokens.len()`'),
-    (r"^ein::rearrange$", 'Vec', 2, 'inds has one entry per lhs identifier and rhs_inds are positions of lhs identifiers; ptr[ri] after `while ptr.len() <= ri { push }`'),
-    (r"^ein::rearrange$", 'Vec-range', 1, 'rhs_inds[..len - 1] after the is_empty test'),
-    (r"^eval::assign_all$", 'slice-range', 2, 'si is the enumerate position of the splat inside lhs: si < lhs.len()'),
-    (r"^eval::evaluate$", 'Vec', 1, 'ops[0] under `ops.len() == 1`'),
-    (r"^eval::evaluate$", 'Vec-range', 1, 'xs[..xs.len() - 1] of a Sequence, which the parser never builds empty'),
-    (r"^eval::set_index$", 'Vec', 2, 'v[i] for i in lo..hi with (lo, hi) from pythonic_slice_obj on the same vector; fields[*field_index] from the struct definition'),
-    (r"^eval::set_index$", 'Vec-range', 1, 'owned[i..i + 1] with i = pythonic_index(&owned, ..) (Ok arm), so i < len'),
-    (r"^eval::weird_string_as_bytes_index$", 'slice-range', 1, 'callers pass an index normalised against the same byte slice (pythonic_index / safe_index_inner): i < len'),
-    (r"^linear_index_isize$", 'slice-range', 1, 'bs[i..i + 1] with i = pythonic_index_isize(bs, ..): i < len'),
+    (r"^ein::compile_einsum::\{closure#\d\}$", 'elem', 1, 'v[n - 1] for a group of n >= 1 identifiers: parse_elements rejects empty groups ("empty group")'),
+    (r"^ein::iterate$", 'elem', 5, 'inds received nn new entries just above; positions inn - 1 - p with p < nn'),
+    (r"^ein::parse_einsum$", 'range', 2, 'arrow_idx is the position() of the arrow token (exactly one arrow was counted)'),
+    (r"^ein::parse_elements$", 'elem', 1, 'inside `while i < tokens.len()`'),
+    (r"^ein::rearrange$", 'elem', 2, 'inds has one entry per lhs identifier and rhs_inds are positions of lhs identifiers; ptr[ri] after `while ptr.len() <= ri { push }`'),
+    (r"^ein::rearrange$", 'range', 1, 'rhs_inds[..len - 1] after the is_empty test'),
+    (r"^eval::assign_all$", 'range', 2, 'si is the enumerate position of the splat inside lhs: si < lhs.len()'),
+    (r"^eval::evaluate$", 'elem', 1, 'ops[0] under `ops.len() == 1`'),
+    (r"^eval::evaluate$", 'range', 1, 'xs[..xs.len() - 1] of a Sequence, which the parser never builds empty'),
+    (r"^eval::set_index$", 'elem', 2, 'v[i] for i in lo..hi with (lo, hi) from pythonic_slice_obj on the same vector; fields[*field_index] from the struct definition'),
+    (r"^eval::set_index$", 'range', 1, 'owned[i..i + 1] with i = pythonic_index(&owned, ..) (Ok arm), so i < len'),
+    (r"^eval::weird_string_as_bytes_index$", 'range', 1, 'callers pass an index normalised against the same byte slice (pythonic_index / safe_index_inner): i < len'),
+    (r"^linear_index_isize$", 'range', 1, 'bs[i..i + 1] with i = pythonic_index_isize(bs, ..): i < len'),
 ]
 
 
